@@ -377,7 +377,14 @@ def rtt(ctx):
                     if any(k is not None and k.get("v") == 0 for k in ks):
                         zero = True
     R.require(zero, "ring0==0", r0[0].where() if r0 else "", "ring0 selects members whose ring equals 0", fail_msg="ring0 no longer tests ring == 0")
-    isr = F.get(MS + "::is_ring0")
+    # the bucket table: ring index = position of the bucket containing the average; ring 0 must be the LOWEST-latency bucket and
+    # an average must fall in at most one bucket (ascending, non-overlapping)
+    tbl = [v for k, v in F.consts.items() if k.endswith("members::RING_BUCKETS")]
+    if R.anchor(tbl and tbl[0].get("arr2"), "RING_BUCKETS", "const RING_BUCKETS: [Range<u64>; N] (evaluated)"):
+        a = tbl[0]["arr2"]
+        ok = all(len(r) == 2 and r[0] < r[1] for r in a) and a[0][0] == 0 and all(a[i][1] <= a[i + 1][0] for i in range(len(a) - 1))
+        R.require(ok, "buckets-ascending", "crates/klukai-types/src/members.rs", "RING_BUCKETS starts at 0 and its ranges are non-empty, ascending and non-overlapping (%s)" % a,
+                  fail_msg="RING_BUCKETS %s: ring 0 is not the lowest-latency bucket, or buckets overlap / are empty" % a)
 
 
 # ------------------------------------------------------------------------------------------------ notify
